@@ -209,10 +209,17 @@ impl Response {
             let content_length: usize = content_length
                 .parse()
                 .map_err(|_| ResponseError::Response)?;
-            let mut content_buf: Vec<u8> = vec![0u8; content_length];
+            // Read at most the announced number of bytes, growing the buffer as they arrive, so that the
+            //   memory used is bounded by what the peer actually sends rather than by what it claims
+            let mut content_buf: Vec<u8> = Vec::new();
             reader
-                .read_exact(&mut content_buf)
+                .by_ref()
+                .take(content_length as u64)
+                .read_to_end(&mut content_buf)
                 .map_err(|_| ResponseError::Stream)?;
+            if content_buf.len() != content_length {
+                return Err(ResponseError::Stream);
+            }
 
             Ok(Self {
                 version,
@@ -276,8 +283,15 @@ where
         stream.read_exact(&mut [0u8, 0]).ok()?;
         None
     } else {
-        let mut content_buf: Vec<u8> = vec![0u8; length];
-        stream.read_exact(&mut content_buf).ok()?;
+        let mut content_buf: Vec<u8> = Vec::new();
+        stream
+            .by_ref()
+            .take(length as u64)
+            .read_to_end(&mut content_buf)
+            .ok()?;
+        if content_buf.len() != length {
+            return None;
+        }
         stream.read_exact(&mut [0u8, 0]).ok()?;
         Some(content_buf)
     }
